@@ -196,8 +196,86 @@ def tie(ctx: Ctx, drv: Driver, n: int) -> None:
     ctx.cov["miniblock_documents_compared"] = len(lines)
 
 
+HTML_LINES = ["<div>", "</div>", "<pre>", "</pre>", "<pre>x</pre>", "<script>", "</script>", "<!-- c", "-->", "<!-- c -->", "<?php", "?>", "<!DOCTYPE x>", "<!x", ">",
+              "<![CDATA[", "]]>", "<b>x</b>", "<b>", "<hr/>", "<a href=\"x\">", "</a>", "<a b='c'>  ", "<p", "<P>", "<ſcript>", "<TEXTAREA>", "</Style>", "<style\t", "<x-y z>",
+              "<div", " <div>", "   <pre>", "    <pre>", "<", "<>", "<1>", "<div>x", "<table>", "<li>", "</ul >", "<img src=x /> y", "<!--", "<!", "<?", "<a\xa0b=c>"]
+SETEXT_LINES = ["===", "---", "=", "-", "== ", "--  ", "=== x", "--- x", "= =", "- -", "  ===", "   ---", "    ===", "\t===", "=\t", "-\t ", "===\xa0", "title", "two words", "> ===", "- ===",
+                "  lazy", "***", "# h", "```", "    code", "1. x", "- a", "> q", ""]
+
+
+def rand_more(rng) -> str:
+    n = rng.randint(0, 8)
+    out = []
+    for _ in range(n):
+        k = rng.random()
+        if k < 0.3:
+            out.append(rng.choice(HTML_LINES))
+        elif k < 0.55:
+            out.append(rng.choice(SETEXT_LINES))
+        elif k < 0.75:
+            out.append(rng.choice(LINES))
+        else:
+            out.append(rng.choice(["> ", "- ", "  ", "1. ", ">", "   ", "    ", "> > ", "- > "]) + rng.choice(HTML_LINES + SETEXT_LINES))
+    return "\n".join(out) + rng.choice(TAILS)
+
+
+MORE_NAMES = NAMES + ["html_block", "lheading"]
+
+
+def tie_more(ctx: Ctx, drv: Driver, n: int) -> None:
+    """the tie with html_block and lheading in the chain as well (driver `mblock`): nine of the eleven block rules, the `html`
+    option on or off"""
+    from markdown_it import MarkdownIt
+
+    rng = ctx.rng
+    mds = {}
+    lines, impl, meta = [], [], []
+    fixed = ["a\n===\n", "a\nb\n---\nc\n", "<div>\nx\n\ny\n", "<pre>\n\nx\n</pre>\ny\n", "para\n<div>\n", "para\n<b>\n", "- a\n  ===\n", "> a\n===\n", "> a\n> ===\n",
+             "<!-- x\n-->z\nq\n", "a\n    ===\n===\n", "- <div>\n\n  x\n", "a\n- ===\n", "a\n***\n===\n", "===\n", "a\n\n===\n", "<div>", "<div>\n", "a\n=== \n"]
+    for i in range(n):
+        k = i % 5
+        if i < len(fixed):
+            src = fixed[i]
+        else:
+            src = rand_more(rng) if k < 3 else (gens.struct_doc(rng, 2) if k == 3 else next(gens.doc_stream(rng, 1, 6)))
+        bits = rng.randrange(64) if i % 3 else 63
+        html_on = rng.random() < 0.75
+        mn = rng.choice([100, 100, 100, 20, 1, 0, 2, 3, 4])
+        key = (bits, html_on, mn)
+        if key not in mds:
+            md = MarkdownIt("zero", {"maxNesting": mn, "html": html_on})
+            md.enable(["blockquote", "list"] + [MORE_NAMES[j] for j in range(6) if bits >> (5 - j) & 1])
+            mds[key] = md
+        md = mds[key]
+        try:
+            toks = md.parse(src)
+            out = "ok " + " ".join(enc_block_tok(t) for t in toks)
+        except Exception as e:  # noqa: BLE001
+            out = "e:" + type(e).__name__
+        lines.append(f"mblock {bits:06b}{1 if html_on else 0} {mn} {enc(src)}")
+        impl.append(out.strip())
+        meta.append((src, bits, html_on, mn))
+    got = drv.batch(lines)
+    bad = 0
+    kinds = {}
+    for ln, a, b, m in zip(lines, impl, got, meta):
+        ctx.corr_compared += 1
+        for ty in ("html_block", "heading_open", "blockquote_open", "bullet_list_open"):
+            if enc(ty) + "|" in a:
+                kinds[ty] = kinds.get(ty, 0) + 1
+        if a != b.strip():
+            bad += 1
+            if bad <= 5:
+                ctx.mismatch("block sub-parser with html_block and lheading: implementation and model differ",
+                             {"input": m[0], "enabled": ["blockquote", "list"] + [MORE_NAMES[j] for j in range(6) if m[1] >> (5 - j) & 1], "html": m[2],
+                              "maxNesting": m[3], "impl": a[:800], "model": b.strip()[:800], "request": ln[:400]})
+    ctx.cov["mblock_documents_compared"] = len(lines)
+    ctx.cov["mblock_streams_with"] = kinds
+
+
 def tie_all(ctx: Ctx, drv: Driver, quick: bool) -> None:
-    """all three ties: leaf rules, + block quotes, + lists"""
+    """all four ties: leaf rules, + block quotes, + lists, + html_block and lheading"""
     tie(ctx, drv, 2000 if quick else 50000)
     tie_quote(ctx, drv, 2500 if quick else 60000)
     tie_list(ctx, drv, 3500 if quick else 100000)
+    tie_more(ctx, drv, 3000 if quick else 80000)
